@@ -86,10 +86,10 @@ fn slot_ptr(k: usize) -> *mut u8 {
 }
 
 /// place `text` in slot k and return it as a &'static str (valid until the slot is rewritten)
-fn place_in_slot(k: usize, text: &str) -> &'static str {
-    assert!(text.len() <= SLOT_BYTES, "text too large for a slot");
+fn place_in_slot(k: usize, off: usize, text: &str) -> &'static str {
+    assert!(off + text.len() <= SLOT_BYTES, "text too large for a slot");
     unsafe {
-        let p = slot_ptr(k);
+        let p = slot_ptr(k).add(off);
         let cur = std::slice::from_raw_parts(p, text.len());
         if cur != text.as_bytes() {
             std::ptr::copy_nonoverlapping(text.as_ptr(), p, text.len());
@@ -442,7 +442,7 @@ fn dispatch(call: &Call, vfs: &Vfs, opts: &ExecOpts, text_addr: &mut usize, exer
             },
         };
         match call.slot {
-            Some(k) => place_in_slot(k as usize, &owned_text),
+            Some(k) => place_in_slot(k as usize, call.slot_off, &owned_text),
             None => &owned_text,
         }
     };
@@ -670,7 +670,7 @@ fn exec_inproc(sc: &Scenario, opts: &ExecOpts) -> RunOutcome {
                     out.harness_error = Some("two texts in one slot shared by several threads".into());
                     return out;
                 }
-                place_in_slot(*k as usize, us[0].1);
+                place_in_slot(*k as usize, 0, us[0].1);
             }
         }
     }
